@@ -1,3 +1,4 @@
+\* measured: 30,460 distinct states, 2,571,598 transitions, 2-3 min at load 40; every Nx action non-zero
 \* replica replacement whose source is the leader (embedded leader transfer first), a task
 \* row created mid-flight after its cutover, leader changes from outside, blocked tasks
 SPECIFICATION Spec
